@@ -272,7 +272,38 @@ fn const_json<'tcx>(tcx: TyCtxt<'tcx>, env: TypingEnv<'tcx>, c: &mir::ConstOpera
                             }
                         }
                     }
+                    // &&[u8] / &&str (promoted reference to a slice constant): follow the fat pointer
                     if !o.has("bytes") {
+                        if let Some(inner) = inner {
+                            if let Some(inner2) = inner.builtin_deref(true) {
+                                let is_str = inner2.is_str();
+                                let is_u8 = matches!(inner2.kind(), ty::Slice(e) if *e == tcx.types.u8);
+                                if is_str || is_u8 {
+                                    if let Some(rustc_middle::mir::interpret::GlobalAlloc::Memory(a)) = tcx.try_get_global_alloc(prov.alloc_id()) {
+                                        let a = a.inner();
+                                        let o0 = off.bytes() as usize;
+                                        if o0 + 16 <= a.len() {
+                                            let raw = a.inspect_with_uninit_and_ptr_outside_interpreter(o0..o0 + 16);
+                                            let inner_off = u64::from_le_bytes(raw[0..8].try_into().unwrap()) as usize;
+                                            let len = u64::from_le_bytes(raw[8..16].try_into().unwrap()) as usize;
+                                            for (po, pp) in a.provenance().ptrs().iter() {
+                                                if po.bytes() as usize == o0 {
+                                                    if let Some(b) = read_alloc_bytes(tcx, pp.alloc_id(), inner_off, len) {
+                                                        if is_str {
+                                                            o.set("str", J::Str(String::from_utf8_lossy(&b).to_string()));
+                                                        } else {
+                                                            o.set("bytes", bytes_to_json(&b));
+                                                        }
+                                                    }
+                                                }
+                                            }
+                                        }
+                                    }
+                                }
+                            }
+                        }
+                    }
+                    if !o.has("bytes") && !o.has("str") {
                         o.set("ptr", J::Bool(true));
                     }
                 }
